@@ -198,9 +198,9 @@ CHECKS = {
              "identical records; (2) get_value with a symbolic magnitude; (3) PinchProblem under every solver-chosen sequence of 3-5 "
              "load/target/export calls with the service stubbed: result of the problem currently loaded, cached object on repetition; "
              "(4) _unique_sheet_name with symbolic characters around the 31-character cut: unique, 1..31 chars, no forbidden character. JSON "
-             "file, CSV directory/pair and the wrapper are compared on the concrete replay of path models (path-directed witnesses).",
+             "file, CSV directory/pair, a workbook with the template sheets and the wrapper are compared on the concrete replay of path models (path-directed witnesses).",
         design_ref="5/C16",
-        note="Workbook (xlsx/xlsb) channel: not applicable -- binary parsers, no template writer in reach. Sheet-name characters and wrapper "
+        note="File parsers (JSON, CSV, openpyxl) are compiled / binary-format code: they are exercised on concrete path models only, not symbolically; the .xlsb variant is not exercised. Sheet-name characters and wrapper "
              "operations are finite-domain symbolic. " + ENGINE_NOTE,
         technique="solver-based symbolic execution of the real code (z3); finite-domain solver choices for characters and call sequences",
     ),
